@@ -8,6 +8,7 @@ import (
 	"fmt"
 	"io"
 	"net"
+	"os"
 	"path/filepath"
 	"strings"
 	"sync"
@@ -78,6 +79,7 @@ type c09Case struct {
 	Fields        []rawhttp.Field `json:"client_fields"`
 	Class         string          `json:"class"`
 	ConnNominated bool            `json:"connection_nominates_field,omitempty"`
+	Path          string          `json:"path,omitempty"`
 }
 
 // C09 — identity and credential headers are trustworthy.
@@ -139,11 +141,23 @@ func C09(r *core.Run) {
 				tok := fmt.Sprintf("s%dg%di%d", r.Seed, ci, i)
 				c := c09Case{Tok: tok, Shim: cfg.shim && i%3 == 0, Identity: "user-" + tok + "@example.com"}
 				idKind := "email"
-				switch rng.Intn(6) {
+				switch rng.Intn(9) {
 				case 0:
 					c.Identity, idKind = "", "empty"
 				case 1:
 					c.Identity, idKind = "allUsers", "word"
+				case 2:
+					c.Identity, idKind = "first+last-"+tok+"@example.com", "plus"
+				case 3:
+					c.Identity, idKind = "a%2Bb%40"+tok+"%zz", "percent"
+				case 4:
+					c.Identity, idKind = "First Last <"+tok+"@example.com>", "spaces"
+				}
+				// plain requests whose paths merely resemble the shim's own endpoints must be treated like any other
+				c.Path = "/plain/" + tok
+				if !c.Shim && i%4 == 1 {
+					c.Path = []string{"/api/v1/shim/poll", "/x/shim/open", "/shim/pollx", "/app/shim/data", "/shimmy/poll", "/SHIM/poll", "/v2/shim/poll", "/shim.poll", "/a/shim/close"}[(i/4)%9]
+					idKind += "+shim-like-path"
 				}
 				forged := rng.Intn(4)
 				fshape := fmt.Sprint(forged)
@@ -209,7 +223,7 @@ func C09(r *core.Run) {
 							Field("Content-Length", fmt.Sprint(len(body))).End()
 						w.WriteString(body)
 					} else {
-						w.Line("GET /plain/"+c.Tok+" HTTP/1.1").Field("Host", "c09.example").Field("X-Tok", c.Tok).Fields(c.Fields).End()
+						w.Line("GET "+c.Path+" HTTP/1.1").Field("Host", "c09.example").Field("X-Tok", c.Tok).Fields(c.Fields).End()
 					}
 					px.Enqueue(c.Tok, w.Bytes(), c.Identity)
 					up, ok := px.Wait(c.Tok, 20*time.Second)
@@ -254,6 +268,9 @@ func C09(r *core.Run) {
 					kind = "shim-open"
 				}
 				for _, req := range reqs {
+					if os.Getenv("VERIF_DEBUG") != "" && !strings.HasPrefix(c.Path, "/plain") && !c.Shim {
+						fmt.Fprintf(os.Stderr, "DEBUG %s %s %s -> %v\n", cfgName, c.Tok, c.Path, req.Fields)
+					}
 					if cfg.fwd {
 						var ids []string
 						for _, f := range req.Fields {
